@@ -409,3 +409,49 @@ Definition oequiv (a b : option obj) : Prop :=
   | _, _ => False
   end.
 Definition with_fmt (x : obj) (f : string) : obj := mkObj (okind x) (oscale x) f (ojd x).
+
+(* ------------------------------------------------------------------ expressions over epochs and durations *)
+(* any sequence of a + b, a - b, -d, as Python evaluates it on the specification *)
+Inductive term : Set :=
+| Leaf (x : obj)
+| TPlus (a b : term)
+| TMinus (a b : term)
+| TNeg (a : term).
+
+Definition neg_opt (x : obj) : option obj :=
+  match okind x with KDelta => Some (neg x) | KTime => None end.
+
+Fixpoint run (t : term) : option obj :=
+  match t with
+  | Leaf x => Some x
+  | TPlus a b => obind (run a) (fun x => obind (run b) (fun y => plus x y))
+  | TMinus a b => obind (run a) (fun x => obind (run b) (fun y => minus x y))
+  | TNeg a => obind (run a) neg_opt
+  end.
+
+Fixpoint aff (t : term) : Q :=
+  match t with
+  | Leaf x => value (ojd x)
+  | TPlus a b => aff a + aff b
+  | TMinus a b => aff a - aff b
+  | TNeg a => - aff a
+  end.
+
+Definition kweight (k : kind) : Z := match k with KTime => 1 | KDelta => 0 end.
+Fixpoint weight (t : term) : Z :=
+  match t with
+  | Leaf x => kweight (okind x)
+  | TPlus a b => weight a + weight b
+  | TMinus a b => weight a - weight b
+  | TNeg a => - weight a
+  end%Z.
+
+(* an expression is accepted iff all leaves share one scale and every intermediate result is an epoch or a duration *)
+Fixpoint wellformed (sc : string) (t : term) : bool :=
+  match t with
+  | Leaf x => String.eqb (oscale x) sc
+  | TPlus a b => wellformed sc a && wellformed sc b && (Z.leb 0 (weight a + weight b)) && (Z.leb (weight a + weight b) 1)
+  | TMinus a b => wellformed sc a && wellformed sc b && (Z.leb 0 (weight a - weight b)) && (Z.leb (weight a - weight b) 1)
+  | TNeg a => wellformed sc a && Z.eqb (weight a) 0
+  end.
+
